@@ -8,7 +8,7 @@ TRUSTED_BASE = [
     "Coq 8.16.1 kernel; Print Assumptions of every C07 theorem: closed under the global context",
     "PARTIAL: theorems give perfect honest-verifier zero knowledge of the commitment sub-protocol (explicit bijection on the randomness), uniformity of every Schnorr response, the encryption sub-protocol's view as a function of the ElGamal ciphertext and uniform responses (Model/Preds.v of src/presentation/{commitment,verifiable_encryption}.rs, create.rs:126-158), credential-independence of the re-randomised signature elements; semantic security of ElGamal (DDH), zero knowledge of bulletproofs-bls and of the accumulator proof are assumed",
     "the tie between Model/Preds.v and the implementation's prover is (i) the verifier side (C03/C05: the real verifier accepts, its model is validated) and (ii) the distinguisher catalogue below run on Presentation::create output: a reuse of a nonce as blinding factor / encryption randomness / second nonce makes one of the tested relations hold",
-    "correspondence / search: harness/src/ops_create.rs action leak — for every commitment / encryption / encrypt-and-decrypt statement and every candidate value m' (signed value, +-1, random, the credential's other claims): L == m'*Q1 + (resp - c*m')*Q2 for every transmitted G1 element L and public generators Q1, Q2 in {G, message generator, blinder generator / encryption key, 0}; per-byte dictionary tests G*resp_i - c1_i == c*b*G and resp_i == c*b for b in 0..255, byte proofs sharing a nonce, resp == c*m' (zero nonce); (resp_i - resp_j) == c*(m_i - m_j) for every pair of hidden claims",
+    "correspondence / search: harness/src/ops_create.rs action leak — for every commitment / encryption / encrypt-and-decrypt statement and every candidate value m' (signed value, +-1, random, the credential's other claims): L == m'*Q1 + (resp - c*m')*Q2 for every transmitted G1 element L and public generators Q1, Q2 in {G, message generator, blinder generator / encryption key, 0}; per-byte dictionary tests G*resp_i - c1_i == c*b*G and resp_i == c*b for b in 0..255, byte proofs sharing a nonce, resp == c*m' (zero nonce); the statement's own blinding factor recovered from its response under degenerate randomness (nonce = the factor itself, zero, or the claim's nonce) and stripped from the commitment / ciphertext; (resp_i - resp_j) == c*(m_i - m_j) for every pair of hidden claims",
 ]
 TRUSTED_BASE = TRUSTED_BASE + [
     "the accumulator proof parameters X, Y, Z, K are treated as elements with hidden, independent logs; tie to the code: they are recomputed by the harness as hash-to-curve images of four distinct inputs (op d_proof_params, repeats the prefix bytes and the domain separation tag of vb20) and must equal ProofParams::new",
